@@ -69,9 +69,11 @@ Fixpoint bisect_depth (fuel : nat) (nofit : T -> T -> bool) (s e : T) : option n
       else Some 1%nat
   end.
 
-(** the harness's source: never fitted on a range with one of the marks strictly inside *)
+(** the harness's source: never fitted on a range that contains one of the marks (end points
+    included, so that the recursion runs down to adjacent numbers on both sides of a mark and
+    ends by the guard alone) *)
 Definition marked (marks : list T) (s e : T) : bool :=
-  existsb (fun m => (s <? m) && (m <? e)) marks.
+  existsb (fun m => (s <=? m) && (m <=? e)) marks.
 (** the worst case: never fitted at all (what a source of NaN samples is to the fitter) *)
 Definition never (_ _ : T) : bool := true.
 
